@@ -158,7 +158,7 @@ pub(crate) mod verif_state {
             while i < K {
                 if pending[i] && (closed || (c > 0 && ids[i] < c)) {
                     oracle!(p, P13 | P11, now[2 * i + lw[i] as usize] > snap[i],
-                        "C13 state broadcast: a waiting receiver was not woken by the send/close through its latest waker");
+                        "C11+C13 state broadcast: a waiting receiver was not woken by the send/close through its latest waker");
                 }
                 i += 1;
             }
